@@ -22,11 +22,14 @@ STD = [0, 1, 2, 3, 4, 5, 6]
 EXT = [0x80, 0x81, 0xFF]
 
 
-def identity(E, ids):
-    """an identity whose objects `ids` hold arbitrary byte strings (possibly empty = not populated), all others empty"""
+def identity(E, ids, order='ascending'):
+    """an identity whose objects `ids` hold arbitrary byte strings (possibly empty = not populated), all others empty; private objects
+    (0x80..) are registered in the given order (the store is a dict: registration order is its iteration order)"""
     data = {k: b'' for k in range(9)}
     vals = {}
-    for k in ids:
+    ext = [k for k in ids if k >= 0x80]
+    ext = {'ascending': ext, 'descending': ext[::-1], 'rotated': ext[1:] + ext[:1]}[order]
+    for k in [k for k in ids if k < 0x80] + ext:
         vals[k] = E.bytes('obj%02x' % k, 0, 245)
         data[k] = vals[k]
     ident = E.obj(DEV + 'ModbusDeviceIdentification', _ModbusDeviceIdentification__data=data)
@@ -38,11 +41,11 @@ def category(rc):
     return {1: [0, 1, 2], 2: STD, 3: STD + EXT}[rc]
 
 
-def get_lemma(rc):
+def get_lemma(rc, order='ascending'):
     def lemma(E):
         ids = category(rc) if rc != 4 else STD + EXT
         # extended category: objects 0, 2, 6 and the extended objects 0x80, 0x81, 0xFF may be populated (bounded choice)
-        ctl, vals = identity(E, STD if rc in (1, 2) else [0, 2, 6] + EXT)
+        ctl, vals = identity(E, STD if rc in (1, 2) else [0, 2, 6] + EXT, order)
         if rc in (3, 4):
             ids = [0, 2, 6] + EXT
         oid = E.choice('object_id', ids)
@@ -145,6 +148,11 @@ def get_units():
     us = []
     for rc in (1, 2, 3, 4):
         us.append(Unit('%s/get.read_code%d' % (PROP, rc), get_lemma(rc), [PROP], functions=[DEV + 'DeviceInformationFactory.get', DEV + 'ModbusDeviceIdentification.__getitem__']))
+        if rc == 3:
+            # private objects registered in another order than ascending id: the answer must not depend on it
+            for order in ('descending', 'rotated'):
+                us.append(Unit('%s/get.read_code3.registered-%s' % (PROP, order), get_lemma(rc, order), [PROP],
+                               functions=[DEV + 'DeviceInformationFactory.get', DEV + 'ModbusDeviceIdentification.__getitem__']))
     for m in range(0, 8):
         us.append(Unit('%s/page.%dobjects' % (PROP, m), page_lemma(m), [PROP], functions=[MEI + 'ReadDeviceInformationResponse.encode', MEI + 'ReadDeviceInformationResponse._encode_object']))
     for m in range(1, 8):
